@@ -34,6 +34,10 @@ pub struct Fault {
     pub call: usize,
     /// fail every call from `call` on (until `repair`), or just that one
     pub permanent: bool,
+    /// after the failing call the sink is down again while this many further input bytes arrive (C14: an outage may end
+    /// in the middle of a key's encoding)
+    #[serde(default)]
+    pub outage: u8,
 }
 
 #[derive(Debug, Default)]
